@@ -41,6 +41,10 @@ func genC09(tier string, seed uint64, run int) *Scenario {
 	proto, _ := protoForRun(r, base, run, ecEvery)
 	if strings.HasPrefix(proto, "ec-") && base == "quick" {
 		proto = []string{"ec-sign", "ec-sign", "ec-keygen"}[run/ecEvery%3]
+		if race {
+			// the race batch of the quick tier also has ECDSA resharing (its round-4 workers share round state)
+			proto = []string{"ec-reshare", "ec-sign", "ec-sign", "ec-keygen"}[run/ecEvery%4]
+		}
 	}
 	p := map[string]interface{}{"proto": proto, "probes": 1 + r.IntN(3), "dups": r.IntN(3), "junk": r.IntN(2)}
 	fillProtoParams(r, base, proto, p)
@@ -48,6 +52,12 @@ func genC09(tier string, seed uint64, run int) *Scenario {
 	if race {
 		kind = "race"
 		p["junk"] = 1 // refused calls (undecodable bytes, foreign sender index) overlap the honest ones in every race run
+		if strings.HasPrefix(proto, "ec-") && (run/ecEvery)%2 == 0 {
+			p["shortssid"] = true // slices with spare capacity: a session id with a leading zero byte (ssid.go)
+			if proto == "ec-reshare" {
+				p["newn"], p["newt"], p["noproofs"] = 3, 1+r.IntN(2), false
+			}
+		}
 	}
 	return &Scenario{Check: "C09", Kind: kind, Seed: seed, Run: run, P: p, Sched: SchedConfig{Strategy: "random", PreStart: r.IntN(2) == 0}}
 }
@@ -480,6 +490,8 @@ func addSorted(xs []string, x string) []string {
 
 func driveRace(rc *RunCtx) {
 	sc := rc.Sc
+	LibConcurrency = 16
+	defer func() { LibConcurrency = 2 }()
 	pr := rc.SetupProto("main", false)
 	if pr == nil {
 		return
